@@ -314,3 +314,30 @@ PROPS["C05"] = {
             "and v2 (scratch module). Distinct = distinct line set.",
     "assumptions": ["sources are gofmt-formatted (the property's quantifier)", "nested anonymous structs are not generated (their members are shared between identically spelled types)"],
 }
+
+PROPS["C12"] = {
+    "variants": ["v1", "v2"],
+    "lean": ["Gengo.Props.C12"],
+    "level": "proof",
+    "level_text": "Model of build-tag selection (a file takes part iff its //go:build expression holds under the tags the tool runs with), of "
+                  "a tool run (load the visible files, compute the output from them, replace the output file, whose header is built from the "
+                  "same tag) and of fmt.Sprintf over %s. Kernel-checked for every tree, every tool (any output function) and any number of "
+                  "runs: an item is in the universe iff a file whose constraint holds provides it; the generated file is excluded under the "
+                  "tool's own tags; if whatever carries the output's name is excluded (no previous output, or a stale one with the generated "
+                  "header) the next run sees the same universe, writes the same bytes and leaves the same tree, for every n; without that "
+                  "premise this holds from the second run on; and the header format strings as regenerated from v2/execute.go "
+                  "(GoBoilerplate) and examples/deepcopy-gen (Packages) yield '//go:build !tag' for every tag name, the default tags "
+                  "included. PARTIAL: go/build's and `go list`'s evaluation of constraints, the legacy '// +build' form and that the "
+                  "Execute entry points pass the tag to the loader are outside the model; they are exercised on the real code and judged "
+                  "with go/build/constraint and byte comparison of consecutive runs.",
+    "level_note": "Trusted: Lean kernel; the translator (go/ast extraction of the Sprintf format strings and default tags); go/build/constraint "
+                  "as the oracle's authority on constraint lines; the harness' in-place generator (one generated type per visible type, so a "
+                  "visible output changes the next output); the model validated by correspondence on visible sets and run outputs.",
+    "rule": "one-package trees (plus two dependency packages) of 2..6 files with random //go:build expressions (depth <= 2 over 5 tags, "
+            "also legacy-only and both forms), types with doc comments and methods (also methods in other files), functions, variables, "
+            "imports only excluded files make, constrained doc.go; previous output absent / stale with generated header / hand-written and "
+            "visible; loaded under 1..2 random tag sets, then 1..3 runs of the in-place tool through gengo.Execute (v2, scratch module) or "
+            "args.GeneratorArgs.Execute (v1, GOPATH mode), then loaded again with and without the tool's tag; header of GoBoilerplate / real "
+            "deepcopy-gen for 4 tags. Distinct = distinct line set.",
+    "assumptions": ["tags are build-tag names (letters, digits, '_', '.')", "Go >= 1.17 semantics: a //go:build line takes precedence over // +build lines"],
+}
